@@ -412,6 +412,14 @@ class Facts:
         pref = body.path + "::{closure#"
         return [b for p, b in sorted(self.bodies.items()) if p.startswith(pref)]
 
+    def closures_in(self, body):
+        """closures / async blocks created in `body` (also in the helpers inlined into it), in creation order"""
+        out = []
+        for i, j, pl, rv, s in body.assigns():
+            if rv["k"] == "agg" and rv.get("closure") and rv["closure"] in self.bodies and self.bodies[rv["closure"]] not in out:
+                out.append(self.bodies[rv["closure"]])
+        return out
+
     def const_value(self, path):
         c = self.consts.get(path)
         if c is None:
